@@ -19,10 +19,10 @@ def probeStep (cfg : Config) (inuse : List (Bytes × List User)) (fs : Fs.Tree) 
   match findLayer d name with
   | none => throw Fault.panic
   | some l =>
-    if l.state == S_error then pure d else
     let buildroot := buildPath cfg l
     let l := { l with mounts := getMountAndSubmounts d.mounts buildroot }
     let l := classifyUsers cfg l (usersOf inuse name)
+    if l.state == S_error then pure (setLayer d l) else
     if !Fs.isDir fs buildroot then pure (setLayer d { l with state := S_incomplete }) else
     let haveWork := Fs.isDir fs (workPath cfg l)
     let haveUpper := Fs.isDir fs (upperPath cfg l)
@@ -50,26 +50,11 @@ def probeLayer (cfg : Config) (inuse : List (Bytes × List User)) (fs : Fs.Tree)
     .ok { l with state := S_incomplete }
   else findLayerstate cfg fs d { l with state := S_complete }
 
-theorem probeStep_eq (cfg : Config) (inuse : List (Bytes × List User)) (fs : Fs.Tree) (d : Defs)
-    (name : Bytes) :
-    probeStep cfg inuse fs d name =
-      match findLayer d name with
-      | none => throw Fault.panic
-      | some l =>
-        if l.state == S_error then pure d else
-          (liftRes (probeLayer cfg inuse fs d name l) >>= fun l' => pure (setLayer d l')) := by
-  unfold probeStep probeLayer
-  split
-  · rfl
-  · rename_i l hl
-    simp only []
-    split
-    · rfl
-    · split
-      · simp [liftRes]
-      · split
-        · simp [liftRes]
-        · rfl
+/-- the record of a layer that IS in the error state after its round (fix e3cb7aa): the
+    state is kept, the mounts at or below the build root and the processes are recorded -/
+def probeErr (cfg : Config) (inuse : List (Bytes × List User)) (d : Defs) (name : Bytes) (l0 : Layer) : Layer :=
+  classifyUsers cfg { l0 with mounts := getMountAndSubmounts d.mounts (buildPath cfg l0) }
+    (usersOf inuse name)
 
 /-! ### fields that classification never touches -/
 
@@ -166,5 +151,35 @@ theorem findLayer_setLayer (d : Defs) (l l' : Layer) (h : findLayer d l'.name = 
     · simp only [Bool.not_eq_true] at hx
       simp only [hx, Bool.false_eq_true, ↓reduceIte] at h ⊢
       exact ih h
+
+theorem probeStep_eq (cfg : Config) (inuse : List (Bytes × List User)) (fs : Fs.Tree) (d : Defs)
+    (name : Bytes) :
+    probeStep cfg inuse fs d name =
+      match findLayer d name with
+      | none => throw Fault.panic
+      | some l =>
+        if l.state == S_error then pure (setLayer d (probeErr cfg inuse d name l)) else
+          (liftRes (probeLayer cfg inuse fs d name l) >>= fun l' => pure (setLayer d l')) := by
+  unfold probeStep probeLayer probeErr
+  split
+  · rfl
+  · rename_i l hl
+    simp only []
+    have hst : (classifyUsers cfg
+        ({ l with mounts := getMountAndSubmounts d.mounts (buildPath cfg l) } : Layer)
+        (usersOf inuse name)).state = l.state :=
+      (classifyUsers_sameCore cfg _ _).2.2.2.2.2.1
+    rw [hst]
+    split
+    · rfl
+    · split
+      · simp [liftRes]
+      · split
+        · simp [liftRes]
+        · rfl
+
+theorem probeErr_key (cfg : Config) (inuse : List (Bytes × List User)) (d : Defs) (name : Bytes) (l : Layer) :
+    SameCore { l with mounts := getMountAndSubmounts d.mounts (buildPath cfg l) } (probeErr cfg inuse d name l) :=
+  classifyUsers_sameCore cfg _ _
 
 end Lc.StateProbe
